@@ -135,6 +135,22 @@ CHECKS = {
         note="Docstring formatting (brief + detailed + parameters) is not judged: documentation texts are single brief "
              "paragraphs. Texts are restricted to valid XML characters.",
         design="6/C17"),
+    "C14": dict(
+        category="model_checking",
+        technique="TLA+ WrapperObject (histories) and Build (processes sharing a build directory) model-checked; replay "
+                  "of all histories of <= 3 WrapFile steps; strace traces of both scripts turned into Build programs "
+                  "whose interleavings TLC explores; run matrix",
+        text="(H) every history of <= 3 wrap_file calls over alphabets of feature-bearing files on one PybindWrapper "
+             "(serialization on, Doxygen XML attached) must give what a fresh wrapper gives; (R) both scripts under "
+             "PYTHONHASHSEED x LC_ALL x cwd and the in-process API give identical trees; (T) strace: only declared "
+             "outputs are created/written, nothing unlinked/renamed/chmod-ed, no undeclared file of the build tree is "
+             "read; (S) the recorded per-process file-system steps are loaded into Build.tla and TLC checks SameAsSolo "
+             "and OnlyDeclared over all interleavings; the same six processes are really run in parallel and compared "
+             "with solo runs.",
+        note="MatlabWrapper objects are single-use by construction (no MATLAB histories). The interleaving model keeps "
+             "at most 3 files and 2 writes per file of each traced process. Locale variation is limited to the locales "
+             "installed (C, C.UTF-8, POSIX).",
+        design="6/C14"),
 }
 
 NOT_YET = "not yet built in this session; planned per DESIGN.md section 6"
